@@ -36,13 +36,14 @@ def queryContent (parsed addr : Bytes) : Bytes := parsed ++ addr
 
 inductive Strip where
   | ok (result : Bytes)
-  /-- `make([]byte, t)` with `t < 0` (the preceding error send does not return) -/
-  | panicNegativeLen
+  /-- `t < 0`: an error is reported and the share is skipped (`continue`, /repo 419bec9; on the
+  pinned commit the code went on to `make([]byte, t)` and panicked) -/
+  | tooShort
   deriving DecidableEq, Repr
 
-/-- `recoverSign`: `t := len(Content) - addrLen; queryResult := make([]byte, t); copy(queryResult, Content)` -/
+/-- `recoverSign`: `t := len(Content) - addrLen; if t < 0 { …; continue }; queryResult := make([]byte, t); copy(queryResult, Content)` -/
 def stripResult (addrLen : Nat) (c : Bytes) : Strip :=
-  if c.length < addrLen then .panicNegativeLen else .ok (c.take (c.length - addrLen))
+  if c.length < addrLen then .tooShort else .ok (c.take (c.length - addrLen))
 
 /-- `choseSubmitter`: `lastSysRand.Uint64() % uint64(len(ids))`; `none` = integer division by zero -/
 def submitterIdx (r n : Nat) : Option Nat :=
@@ -60,7 +61,7 @@ def threshold (n : Nat) : Nat := n / 2 + 1
 
 def showStrip : Strip → String
   | .ok r => "ok " ++ toHex r
-  | .panicNegativeLen => "panic neglen"
+  | .tooShort => "skipped"
 
 def stepLine (size addrLen : Nat) (line : String) : String :=
   match words line with
